@@ -117,6 +117,11 @@ func init() {
 		r.Rule = "explicit-state BFS over API histories; in every reached state every token ever seen (plus mutants) is introspected under the whole hint x scope x caller grid and compared with the model"
 		r.Assumptions = []string{"model liveness: issued, unexpired (1s don't-care window around expiry), not rotated/revoked/killed", "scope coverage judged by an independent reimplementation of the three scope strategies"}
 		famSearch(r, specs)
+		// the stateless JWT validator alone: payload of active tokens
+		if !r.MergeJobs(r.Pool.Do("c09stateless", []any{map[string]string{}}, r.Deadline)) {
+			r.Exhaustive = false
+		}
+		r.Bounds["stateless_jwt_validator_alone"] = "2 grants x 3 requested audiences: audience, scope and exp reported for an active token equal the token's claims"
 	})
 }
 
